@@ -141,3 +141,22 @@ def load(data_records):
                 twice.add(a + k)
             mem[a + k] = b
     return mem, twice
+
+
+def selftest():
+    """known-good records from common references (plain values)"""
+    r = parse_record("S1137AF00A0A0D0000000000000000000000000061")
+    assert r["ok"] and r["typ"] == 1 and r["address"] == 0x7AF0 and len(r["data"]) == 16
+    assert not parse_record("S1137AF00A0A0D0000000000000000000000000062")["ok"]
+    assert not parse_record("S1127AF00A0A0D0000000000000000000000000061")["count_ok"]
+    d = decode(["S00F000068656C6C6F202020202000003C", "S11F00007C0802A6900100049421FFF07C6C1B787C8C23783C6000003863000026",
+                "S5030001FB", "S9030000FC"])
+    assert d["records_ok"] and d["structure_ok"] and d["header"][:5] == [0x68, 0x65, 0x6C, 0x6C, 0x6F]
+    assert d["data"][0][0] == 0 and len(d["data"][0][1]) == 28 and d["termination"] == (9, 0)
+    assert not decode(["S1137AF00A0A0D0000000000000000000000000061", "S804000000FB"])["structure_ok"]   # S1 with S8
+    assert not decode(["S1137AF00A0A0D0000000000000000000000000061"])["structure_ok"]                    # no termination
+    d = decode(["S20801000001020304EC", "S804000000FB"])
+    assert d["records_ok"] and d["structure_ok"] and d["data"] == [(0x10000, [1, 2, 3, 4])]
+    mem, twice = load([(0, [1, 2]), (1, [9])])
+    assert mem == {0: 1, 1: 9} and twice == {1}
+    return True
